@@ -151,9 +151,16 @@ func xferScenario(spec *xferSpec, res *xferResult) *Scenario {
 	if readBuf == 0 {
 		readBuf = 70000
 	}
+	steps := 0
+	for _, st := range spec.Streams {
+		if n := 60 * len(st.Msgs); n > 150000 {
+			steps += n
+		}
+	}
 	return &Scenario{
-		Name:    "xfer",
-		Horizon: hz,
+		Name:     "xfer",
+		Horizon:  hz,
+		MaxSteps: steps,
 		Setup: func(m *Sim) {
 			*res = xferResult{}
 			res.init()
